@@ -185,6 +185,8 @@ func contig(c *an.Ctx, rule string) contigResult {
 		if _, isAppend := archiveAppend(p.Info(w.fn), w.st); isAppend && !usedAppend[w.st] {
 			c.Violated(rule, w.fn, w.st.Pos(), an.KeyOf(w.fn, "append:equipmentStatsHistory"), "a record is appended to the archive without advancing the window offset by 2016", "offset must stay equal to 2016 * len(archive)")
 			res.OK = false
+		} else if isAppend {
+			c.Proved(rule, w.fn, w.st.Pos(), an.KeyOf(w.fn, "append:equipmentStatsHistory"), "every append to the archive is paired with the advance of the window offset by 2016", "paired with a store of the offset (see store:equipmentReportsOffset)")
 		}
 	}
 	if len(offsetStores) == 0 {
